@@ -37,6 +37,10 @@ def run(ctx):
         ctx.guard("order-preserved" + tag, order_preserved, ctx, crate, crs, tag)
         ctx.guard("first-candidate" + tag, first_candidate, ctx, crate, crs, tag)
         ctx.guard("union-order" + tag, union_order, ctx, crate, crs, tag)
+        # the candidate lists the clauses are built from are the provider's (filter flag / map agreement, memoised under the right key)
+        import mech
+        ctx.guard("candidate-lists" + tag, mech.memo_check, ctx, "candidate-lists", crate, crs, tag)
+        ctx.guard("candidate-lists" + tag, mech.filter_siblings, ctx, crate, crs, tag, "candidate-lists")
 
 
 REORDER = {"rev", "sorted", "sorted_by", "sorted_by_key", "sorted_unstable", "sorted_unstable_by", "sorted_unstable_by_key", "sorted_by_cached_key",
